@@ -823,6 +823,25 @@ func c08ItemLoops(c *Ctx, a *sketchAnchors) {
 								}
 								strict := ctrLeft && bo.Op == token.LSS || !ctrLeft && bo.Op == token.GTR
 								zero := init.Value != nil && init.Value.String() == "0"
+								if !one {
+									// a batch step: counter += len(X) where one inner `range X` loop reads one item per
+									// element and X was cut to at most N − counter elements
+									nv := bo.Y
+									if !ctrLeft {
+										nv = bo.X
+									}
+									other := step.Y
+									if step.Y == ssa.Value(ctr) {
+										other = step.X
+									}
+									if why := c08BatchStep(c, tc, comp, ctr, nv, other); why == "" {
+										one = true
+									} else {
+										c.R.check(false, rule, key+"/exactly-N", shortFn(f), c.ipos(iff), "counter = φ(0, counter + 1), loop while counter < N (or counter += len(X) for a batch X of at most N − counter items read by one inner range loop): exactly the announced number of items is read",
+											fmt.Sprintf("start %s, step %s, test %s: %s", init.Name(), step.String(), bo.String(), why))
+										continue
+									}
+								}
 								c.R.check(strict && zero && one, rule, key+"/exactly-N", shortFn(f), c.ipos(iff), "counter = φ(0, counter + 1), loop while counter < N: exactly the announced number of items is read",
 									fmt.Sprintf("start %s, step %s, test %s", init.Name(), step.String(), bo.String()))
 							}
@@ -834,6 +853,120 @@ func c08ItemLoops(c *Ctx, a *sketchAnchors) {
 	}
 	c.R.floor(rule, "item loops in bin decoders", nloops, 5)
 	c08BatchSizes(c, rule, withNewHelpers(fns...))
+}
+
+// c08BatchStep decides the batch form of an item counter: `step` (the amount added to the counter in one turn of the
+// outer loop) is len(X); every item decode of the outer loop is the single decode of the body of one inner
+// `for … range X`; and X is φ(A, A[:N−counter]) joined under the test N−counter < len(A), so that len(X) ≤ N−counter.
+// It answers "" when all of that holds, otherwise what is missing.
+func c08BatchStep(c *Ctx, tc *TermCtx, comp []*ssa.BasicBlock, ctr *ssa.Phi, nv, step ssa.Value) string {
+	unconv := func(v ssa.Value) ssa.Value {
+		for {
+			cv, ok := v.(*ssa.Convert)
+			if !ok {
+				return v
+			}
+			v = cv.X
+		}
+	}
+	lenOf := func(v ssa.Value) ssa.Value {
+		if call, ok := unconv(v).(*ssa.Call); ok {
+			if b, isB := call.Common().Value.(*ssa.Builtin); isB && b.Name() == "len" && len(call.Common().Args) == 1 {
+				return call.Common().Args[0]
+			}
+		}
+		return nil
+	}
+	x := lenOf(step)
+	if x == nil {
+		return "the step is not the length of a batch"
+	}
+	in := map[*ssa.BasicBlock]bool{}
+	for _, b := range comp {
+		in[b] = true
+	}
+	// the inner range loop over X: header φ(−1, φ+1), test φ+1 < len(X)
+	var body *ssa.BasicBlock
+	for _, b := range comp {
+		iff, ok := b.Instrs[len(b.Instrs)-1].(*ssa.If)
+		if !ok {
+			continue
+		}
+		bo, ok := iff.Cond.(*ssa.BinOp)
+		if !ok || bo.Op != token.LSS || lenOf(bo.Y) != x {
+			continue
+		}
+		inc, ok := bo.X.(*ssa.BinOp)
+		if !ok || inc.Op != token.ADD {
+			continue
+		}
+		ph, ok := inc.X.(*ssa.Phi)
+		k, okK := inc.Y.(*ssa.Const)
+		if !ok || !okK || k.Value == nil || k.Value.String() != "1" || ph.Block() != b || len(ph.Edges) != 2 {
+			continue
+		}
+		okInit, okStep := false, false
+		for _, e := range ph.Edges {
+			if k, isK := e.(*ssa.Const); isK && k.Value != nil && k.Value.String() == "-1" {
+				okInit = true
+			}
+			if e == ssa.Value(inc) {
+				okStep = true
+			}
+		}
+		if okInit && okStep {
+			body = b.Succs[0]
+		}
+	}
+	if body == nil {
+		return "no inner range loop over the batch"
+	}
+	ndec := 0
+	for _, b := range comp {
+		for _, ins := range b.Instrs {
+			if call, ok := ins.(*ssa.Call); ok {
+				if _, _, ok := moduleErrCall(c, call); ok {
+					ndec++
+					if b != body {
+						return "an item is decoded outside the body of the range loop over the batch"
+					}
+				}
+			}
+		}
+	}
+	if ndec != 1 {
+		return fmt.Sprintf("%d decodes in the body of the range loop over the batch", ndec)
+	}
+	// len(X) ≤ N − counter
+	ph, ok := x.(*ssa.Phi)
+	if !ok || len(ph.Edges) != 2 || !in[ph.Block()] {
+		return "the batch is not cut to what remains"
+	}
+	isRemaining := func(v ssa.Value) bool {
+		bo, ok := unconv(v).(*ssa.BinOp)
+		return ok && bo.Op == token.SUB && bo.X == nv && bo.Y == ssa.Value(ctr)
+	}
+	for i := 0; i < 2; i++ {
+		full, cut := ph.Edges[i], ph.Edges[1-i]
+		sl, ok := cut.(*ssa.Slice)
+		if !ok || sl.X != full || sl.Low != nil || sl.High == nil || !isRemaining(sl.High) {
+			continue
+		}
+		// the edge that brings the full batch comes from the block that tests remaining < len(full) and goes to the cut on true
+		from := ph.Block().Preds[i]
+		iff, ok := from.Instrs[len(from.Instrs)-1].(*ssa.If)
+		if !ok || from.Succs[1] != ph.Block() || from.Succs[0] != sl.Block() {
+			continue
+		}
+		bo, ok := iff.Cond.(*ssa.BinOp)
+		if !ok {
+			continue
+		}
+		if bo.Op == token.LSS && isRemaining(bo.X) && lenOf(bo.Y) == full || bo.Op == token.GTR && isRemaining(bo.Y) && lenOf(bo.X) == full {
+			return ""
+		}
+	}
+	return "the batch is not cut to what remains"
 }
 
 // c08BatchSizes: a decoder that consumes the announced items in batches of min(remaining, room) and then
